@@ -68,3 +68,38 @@ def run_real(case, data, rng, watchdog_s=60.0):
         return {"logs": {f"obs{i}": o.vf_log for i, o in enumerate(obs)}, "alive": [], "inconclusive": inconclusive}
     finally:
         sys.setswitchinterval(old)
+
+
+def run_real_saver(case, data, rng, tmpdir, watchdog_s=60.0):
+    """Real threads, real queue.Queue: reader wrapped by the StreamSaverWorker, a joiner and a sleepy observer."""
+    import os
+    import random
+
+    old = sys.getswitchinterval()
+    sys.setswitchinterval(1e-6)
+    try:
+        r = random.Random(rng.getrandbits(32))
+        reader = SleepyReader(data, block_dur=case["w"], **AC.audio_kwargs(case)).vf_init(r, rng.choice((0.0, 0.3, 1.0)))
+        path = os.path.join(tmpdir, "stress_stream.wav")
+        saver = W.StreamSaverWorker(reader, filename=path, cache_size_sec=case["saver"]["cache_size_sec"], timeout=rng.choice((0.0005, 0.005, 0.2)))
+        saver.start()
+        jpath = os.path.join(tmpdir, "stress_joined.wav")
+        joiner = W.AudioEventsJoinerWorker(case["silence"], jpath, None, case["rate"], case["width"], case["channels"], timeout=rng.choice((0.0005, 0.2)))
+        obs = SleepyObserver(random.Random(rng.getrandbits(32)), rng.choice((0.0, 0.5, 1.0)), rng.choice((0.0005, 0.005, 0.2)))
+        kw = {k: v for k, v in AC.split_kwargs(case).items() if k != "analysis_window"}
+        tw = W.TokenizerWorker(saver, [joiner, obs], **kw)
+        tw.start_all()
+        deadline = time.monotonic() + watchdog_s
+        for t in (tw, joiner, obs, saver):
+            threading.Thread.join(t, max(0.0, deadline - time.monotonic()))
+        late = [type(t).__name__ for t in (tw, joiner, obs, saver) if t.is_alive()]
+        if late:
+            for t in (tw, joiner, obs, saver):
+                try:
+                    t.send(W._STOP_PROCESSING)
+                except Exception:
+                    pass
+            return {"inconclusive": f"threads still alive after {watchdog_s}s: {late}"}
+        return {"inconclusive": None, "stream": path, "joined": jpath, "log": obs.vf_log}
+    finally:
+        sys.setswitchinterval(old)
